@@ -283,8 +283,13 @@ def upstream_observer_case(item):
                'finalizer': lambda: DF.finalizer(lambda: fired.append(1))}[okind]()
         with contextlib.redirect_stdout(io.StringIO()), contextlib.redirect_stderr(io.StringIO()):
             up = Flow(src, obs).datastream()
-            res, dp, _ = Flow(DF.load((up.dp.descriptor, up.res_iter), strip=False)).results()
-        if res != srcs:
+            sel = item.get('select')
+            res, dp, _ = Flow(DF.load((up.dp.descriptor, up.res_iter), strip=False, **({} if sel is None else dict(resources=sel)))).results()
+        if sel is not None:
+            # the consumer keeps one resource only: the observer upstream still saw - and persisted - all of them
+            if res != [srcs[sel]]:
+                return dict(ok=False, why='the consumer did not receive exactly the selected resource', got=[len(x) for x in res])
+        elif res != srcs:
             return dict(ok=False, why='the consumer did not receive the stream', got=[len(x) for x in res])
         if okind == 'finalizer':
             return dict(ok=fired == [1], why='the finalizer fired %d times' % len(fired))
@@ -295,6 +300,44 @@ def upstream_observer_case(item):
         want = [dict(name='res%d' % i, fields=['a', 'b'], rows=rows) for i, rows in enumerate(srcs)]
         if persisted is not None and canon(persisted) != canon(want):
             return dict(ok=False, why='what the observer persisted is not the full stream at its position', persisted=persisted)
+        return dict(ok=True)
+    except Exception as e:
+        return dict(ok=False, why='raised %s: %s' % (type(e).__name__, str(e)[:160]))
+    finally:
+        shutil.rmtree(root, ignore_errors=True)
+
+
+def finalizer_stats_case(item):
+    """a finalizer whose callback takes `stats`, placed after steps that report statistics while / after the rows stream (a file
+    dumper's row count and bytes, update_stats with a dict that a row step keeps updating): the callback fires after the last
+    row, so what it is handed is what those steps report for the COMPLETE stream - and what process() returns in the end"""
+    import dataflows as DF
+    from dataflows import Flow
+    setup_repo()
+    shape, pos = item['shape'], item['pos']
+    root = tempfile.mkdtemp(prefix='c05f-', dir=tlc.WORK_ROOT)
+    try:
+        seen = []
+        live = dict(rows_seen=0)
+
+        def count(row):
+            live['rows_seen'] += 1
+        from ..common import tuple_source
+        srcs = [[dict(a=k, b='r%d-%d' % (i, k)) for k in range(n)] for i, n in enumerate(shape)]
+        src = tuple_source([('res%d' % i, [('a', 'integer'), ('b', 'string')], rows) for i, rows in enumerate(srcs)])
+        fin = DF.finalizer(lambda stats: seen.append(dict(stats)))
+        steps = [src, count, DF.update_stats(live), DF.dump_to_path(os.path.join(root, 'o'))]
+        steps = steps + [fin] if pos == 'last' else steps + [fin, DF.delete_resource(0)]
+        with contextlib.redirect_stdout(io.StringIO()), contextlib.redirect_stderr(io.StringIO()):
+            dp, stats = Flow(*steps).process()
+        total = sum(shape)
+        if len(seen) != 1:
+            return dict(ok=False, why='the finalizer fired %d times' % len(seen))
+        got = seen[0]
+        if got.get('count_of_rows') != total or got.get('rows_seen') != total:
+            return dict(ok=False, why='the stats handed to the finalizer are not those of the complete stream', got={k: got.get(k) for k in ('count_of_rows', 'rows_seen', 'bytes')}, rows=total)
+        if got.get('count_of_rows') != stats.get('count_of_rows') or got.get('hash') != stats.get('hash'):
+            return dict(ok=False, why='the stats handed to the finalizer differ from what process() returns', got=got, returned=stats)
         return dict(ok=True)
     except Exception as e:
         return dict(ok=False, why='raised %s: %s' % (type(e).__name__, str(e)[:160]))
@@ -445,6 +488,7 @@ def run():
             rep.violation(it, dict(case=it, **{k: v for k, v in out.items() if k != 'ok'}),
                           category='menu/%s/%s' % (it['obs'], out['why'][:50]))
     uitems = [dict(upstream=True, obs=o, shape=sh) for o in ('dump_to_path', 'dump_to_zip', 'stream', 'checkpoint', 'finalizer') for sh in ([2], [0], [2, 0, 3])]
+    uitems += [dict(upstream=True, obs=o, shape=[2, 1, 3], select=k) for o in ('dump_to_path', 'dump_to_zip', 'stream', 'checkpoint', 'finalizer') for k in (0, 1, -1)]
     for it, out in zip(uitems, pmap(upstream_observer_case, uitems, chunksize=2)):
         if '__harness_error__' in out:
             raise tlc.MachineryError('harness error in upstream-observer cases: ' + out['__harness_error__'])
@@ -452,6 +496,14 @@ def run():
         rep.mark_distinct(it)
         if not out['ok']:
             rep.violation(it, dict(case=it, **{k: v for k, v in out.items() if k != 'ok'}), category='observer-upstream-of-load-tuple/%s' % it['obs'])
+    sitems = [dict(finstats=True, shape=sh, pos=p_) for sh in ([3], [0], [2, 4], [150, 1]) for p_ in ('last', 'before_delete')]
+    for it, out in zip(sitems, pmap(finalizer_stats_case, sitems, chunksize=2)):
+        if '__harness_error__' in out:
+            raise tlc.MachineryError('harness error in finalizer-stats cases: ' + out['__harness_error__'])
+        rep.count(1, traces=1)
+        rep.mark_distinct(it)
+        if not out['ok']:
+            rep.violation(it, dict(case=it, **{k: v for k, v in out.items() if k != 'ok'}), category='finalizer-stats/%s' % out['why'][:40])
     pcases = model_printer(rep, t)
     if t == 'quick':
         r.shuffle(pcases)
@@ -485,7 +537,11 @@ def replay(path):
     setup_repo()
     rec = json.load(open(path))
     c = rec['case']
-    if c.get('upstream'):
+    if c.get('finstats'):
+        out = finalizer_stats_case(c)
+        print(json.dumps(out, default=str)[:2000])
+        bad = not out['ok']
+    elif c.get('upstream'):
         out = upstream_observer_case(c)
         print(json.dumps(out, default=str)[:2000])
         bad = not out['ok']
